@@ -11,8 +11,12 @@ IDS = ["Alpha", "Beta", "Gamma", "Delta", "Eps", "Zeta", "Eta", "Theta", "Iota",
 TIDS = ["None", "Discriminant", "type", "Err", "Error", "Iterator", "fn", "Output", "Default", "Option", "match", "Some"]
 
 
+# ... and lower-case identifiers that coincide with the names of locals and parameters in generated code
+LIDS = ["idx", "f", "s", "v", "val", "value", "key", "i", "n", "item", "other", "index"]      # (not x, d, e: the drivers bind values of the enum type under those names)
+
+
 def ids_for(did):
-    return TIDS if did % 5 == 4 else IDS
+    return TIDS if did % 5 == 4 else LIDS if did % 5 == 2 else IDS
 
 
 def shape(rng, did, n, mask, kinds="mixed", generics="none", style="none"):
@@ -45,6 +49,12 @@ def decorate(rng, v):
         v["aci"] = rng.choice([0, 1])           # consumed by EnumString only; every other derive must ignore it
     if rng.random() < 0.15:
         v["xattrs"] = ["#[allow(dead_code)]"]    # a non-strum attribute next to the strum ones
+    if rng.random() < 0.2:
+        v["docattrs"] = [(rng.randrange(3), rng.choice(["#[doc(hidden)]", '#[doc(alias = "nick")]']))]
+    # a property KEY that reads like a keyword (props are consumed by EnumProperty only)
+    if not v.get("props") and rng.random() < 0.1:
+        k = rng.choice(["disabled", "default", "transparent"])
+        v["props"] = [dict(key=[ord(c) for c in k], keysrc=k, ty="s", val=[ord(c) for c in "true"], src="", grp=0)]
     # string VALUES whose text reads like a keyword: an attribute's text is not its structure
     r = rng.random()
     if r < 0.1:
@@ -91,9 +101,22 @@ PROF = '    let prof = if cfg!(debug_assertions) { "dev" } else { "release" };\n
 RUN = "pub fn run(o: &mut Out, ins: &std::collections::HashMap<u32, Vec<String>>, seed: u64) {\n"
 
 
+def selfref_def(did):
+    """a recursive enum whose own Default is written through its iterator ("the first variant"): well founded as long as an
+    item is built only when it is yielded"""
+    E = enum(did, [variant("Leaf"), variant("Branch", "tuple", [field("boxself")]), variant("Off", dis=True),
+                   variant("Pair", "named", [field("boxself", "next"), field("u8", "n")])])
+    E["extra_items"] = ("impl ::core::default::Default for %s { fn default() -> Self { "
+                        "<%s as strum::IntoEnumIterator>::iter().next().unwrap() } }\n" % (E["name"], E["name"]))
+    return E
+
+
 def iter_module(E, depth, steps):
     n_en = sum(1 for v in E["variants"] if not v["dis"])
     src = SG.HEADER + D.print_enum(E, ["EnumIter"]) + "\n" + probe_nocapture(E) + send_sync_check(E)
+    if E["id"] % 2 == 0:
+        src += D.BLANKET_TRAIT + D.decoys(E, ["EnumIter"])
+    src += E.get("extra_items", "")
     it = "<%s as strum::IntoEnumIterator>::iter()" % D.inst(E)
     src += RUN + PROF
     src += "    iter_dfs(o, %d, prof, %d, %s, %d);\n" % (E["id"], n_en, it, depth)
@@ -105,6 +128,9 @@ def iter_module(E, depth, steps):
 def list_module(E):
     """C04: the whole list forwards/backwards, payloads, COUNT"""
     src = SG.HEADER + D.print_enum(E, ["EnumIter", "EnumCount"]) + "\n" + probe_nocapture(E)
+    if E["id"] % 2 == 0:
+        src += D.BLANKET_TRAIT + D.decoys(E, ["EnumIter", "EnumCount"])
+    src += E.get("extra_items", "")
     it = "<%s as strum::IntoEnumIterator>::iter()" % D.inst(E)
     src += RUN + PROF
     src += ("    let r = catch(|| {\n"
@@ -124,6 +150,8 @@ def list_module(E):
 def lists_module(E):
     """C08: COUNT, VariantNames, VariantArray and iter on a field-less enum"""
     src = SG.HEADER + D.print_enum(E, ["EnumIter", "EnumCount", "VariantNames", "VariantArray"]) + "\n" + probe_nocapture(E)
+    if E["id"] % 2 == 0:
+        src += D.BLANKET_TRAIT + D.decoys(E, ["EnumIter", "EnumCount", "VariantNames"])
     it = "<%s as strum::IntoEnumIterator>::iter()" % D.inst(E)
     src += RUN
     src += ("    let r = catch(|| {\n"
